@@ -361,7 +361,8 @@ namespace ValueFlow
     {
         if (value.isFloatValue()) {
             value.valueType = Value::ValueType::INT;
-            if (value.floatValue >= std::numeric_limits<int>::min() && value.floatValue <= std::numeric_limits<int>::max()) {
+            // the target type may be wider than int; -2^63 and 2^63 are exact doubles
+            if (value.floatValue >= -9223372036854775808.0 && value.floatValue < 9223372036854775808.0) {
                 value.intvalue = static_cast<MathLib::bigint>(value.floatValue);
             } else { // don't perform UB
                 value.intvalue = 0;
